@@ -64,7 +64,7 @@ macro_rules! tup {
 }
 
 #[derive(Debug, Clone)]
-enum Seg {
+pub(crate) enum Seg {
     S(StaticSegment<&'static str>),
     P(ParamSegment),
     O(OptionalParamSegment),
@@ -172,7 +172,7 @@ fn text(s: &Sexp) -> String {
     s.string().expect("case strings are valid UTF-8 by construction")
 }
 
-fn build_seg(s: &Sexp) -> Seg {
+pub(crate) fn build_seg(s: &Sexp) -> Seg {
     match s.at(0).num() {
         0 => Seg::S(StaticSegment(intern(text(s.at(1))))),
         1 => Seg::P(ParamSegment(intern(text(s.at(1))))),
